@@ -253,7 +253,7 @@ pub fn main(ctx: &Ctx) -> i32 {
                 for &f in ALL_FLAGS {
                     server_case(ctx, &script, f);
                 }
-                if idx % 301 == 0 && len >= 3 {
+                if (idx % 301 == 0 && len >= 3) || (ctx.want_sample() && len >= 2) {
                     ctx.sample(json!({"script": script, "note": "run with flags -, more, oneway, more+oneway"}));
                 }
                 idx += nw;
